@@ -560,7 +560,7 @@ class Lexicon:
                         found[key] = w
         return [(i, j, w) for (i, j), w in sorted(found.items())]
 
-    def wordsplit(self, idcont: CharSet, exempt: set[int]):
+    def wordsplit(self, idcont: set, exempt: set[int]):
         """(i, witness): rule i's selected match ends in a letter/underscore and is directly
         followed by a character that continues an identifier."""
         M, atoms = self.M, self.atoms
@@ -580,7 +580,7 @@ class Lexicon:
                 st2, ev = M.step(st, a)
                 p = pend
                 if ev is not None:
-                    p = ev if (letter(st[1]) and self.alpha.contains(idcont, a) and ev not in exempt) else None
+                    p = ev if (letter(st[1]) and a in idcont and ev not in exempt) else None
                 yield a, (st2, p)
             st2, ev = M.step(st, EOF)
             yield EOF, ("end", None if ev is not None else pend)
@@ -616,6 +616,54 @@ class Lexicon:
         if ("hit",) in parent:
             return _text(_path(parent, ("hit",)))
         return None
+
+    def monitor_search(self, mon_init, mon_step, judge, judge_fail=None, first_atoms=None):
+        """Product of the master matcher with a reference monitor (a small DFA over atoms).
+
+        mon_step(q, atom) -> q' (or None to prune the input family);
+        judge(rule, q_at_match_end, q_after_next, next_atom) -> None | reason, evaluated for
+        every recorded match; only the *final* recorded match of a run counts (that is the
+        token the lexer takes).  judge_fail(q) -> None | reason when no rule matches at all.
+        Returns {reason: witness text} with shortest witnesses."""
+        M, atoms = self.M, self.atoms
+        found = {}
+
+        def succ(node):
+            if node[0] == "end":
+                return
+            st, q, pend, n = node
+            if M.dead(st):
+                yield None, ("end", pend if pend is not None else
+                             ("f", judge_fail(q) if judge_fail else None), n)
+                return
+            for a in atoms:
+                if n == 0 and first_atoms is not None and a not in first_atoms:
+                    continue
+                q2 = mon_step(q, a)
+                if q2 is None:
+                    continue
+                st2, ev = M.step(st, a)
+                p = pend
+                if ev is not None:
+                    p = ("m", judge(ev, q, q2, a))
+                yield a, (st2, q2, p, 1)
+            st2, ev = M.step(st, EOF)
+            p = pend
+            if ev is not None:
+                p = ("m", judge(ev, q, None, EOF))
+            yield EOF, ("end", p if p is not None else ("f", judge_fail(q) if judge_fail else None), n)
+
+        starts = [(s, mon_init, None, 0) for s in M.starts()]
+        parent = _bfs(starts, succ)
+        for node in parent:
+            if node[0] != "end" or not node[2]:
+                continue
+            reason = node[1][1] if node[1] is not None else None
+            if reason:
+                w = _text(_path(parent, node))
+                if reason not in found or len(w) < len(found[reason]):
+                    found[reason] = w
+        return found
 
     def first_atoms(self, i: int) -> set[int]:
         R = self.R[i]
